@@ -1,6 +1,8 @@
 package sigh
 
 import (
+	"os"
+	"strconv"
 	"strings"
 	"testing"
 
@@ -10,6 +12,9 @@ import (
 )
 
 // Scen is a named set of client scripts run against one relay.
+// A first script that begins with "!setup" is executed by one thread before
+// the other script threads start (e.g. "attach both sides and wait": the race
+// explored is then only the one between the scripts, not that of the attaches).
 type Scen struct {
 	Name    string
 	Scripts [][]string
@@ -18,13 +23,44 @@ type Scen struct {
 // ExploreS1 explores every scenario (server-only harness: real relay,
 // scripted raw clients) and reports verdicts with the given prefix.
 func ExploreS1(t *testing.T, run *evid.Run, agg *mc.Agg, prefix string, scens []Scen, bound int) {
+	// development aids: VERIF_ONLY=<substring> restricts the scenarios, VERIF_BOUND overrides the bound
+	if only := os.Getenv("VERIF_ONLY"); only != "" {
+		var f []Scen
+		for _, sc := range scens {
+			if strings.Contains(sc.Name, only) {
+				f = append(f, sc)
+			}
+		}
+		scens = f
+	}
+	if b, err := strconv.Atoi(os.Getenv("VERIF_BOUND")); err == nil && b > 0 {
+		bound = b
+	}
 	mc.RunScenarios(t, agg, len(scens), func(i int) *vsync.Config {
 		sc := scens[i]
+		// scenarios with a "!setup" phase race only their script threads: they are
+		// explored with DELAY bounding (every non-default choice costs) one unit
+		// deeper than the preemption bound of the others - far fewer executions
+		// than preemption bounding, whose free switches at blocking points explode
+		// on long executions
+		delay := os.Getenv("VERIF_S1_DELAY") != ""
+		b := bound
+		if len(sc.Scripts) > 0 && len(sc.Scripts[0]) > 0 && sc.Scripts[0][0] == "!setup" {
+			delay, b = true, bound+1
+		}
 		return &vsync.Config{
-			Name: "relay-s1/" + sc.Name, Bound: bound, Deadline: run.Deadline(), MaxStep: 5000,
+			Name: "relay-s1/" + sc.Name, Bound: b, Delay: delay, Deadline: run.Deadline(), MaxStep: 5000,
 			Body: func() {
 				w := NewWorld()
-				w.RunScripts(sc.Scripts)
+				scripts := sc.Scripts
+				if len(scripts) > 0 && len(scripts[0]) > 0 && scripts[0][0] == "!setup" {
+					for _, a := range scripts[0][1:] {
+						vsync.Yield(a)
+						w.Do(a)
+					}
+					scripts = scripts[1:]
+				}
+				w.RunScripts(scripts)
 				w.EvalQuiescent()
 				w.Teardown()
 			},
